@@ -113,7 +113,8 @@ pub struct Case {
 }
 
 /// Pieces the generated texts are concatenated from ("\r" + "\n" pieces merge naturally).
-const PIECES: [&str; 12] = ["a", "b", " ", "\n", "\r", "\r\n", "é", "漢", "😀", "𝒳", "", "\u{feff}"];
+// (U+2028, U+2029, U+0085, VT and FF are line breaks elsewhere, not here: only \n, \r\n, \r terminate)
+const PIECES: [&str; 17] = ["a", "b", " ", "\n", "\r", "\r\n", "é", "漢", "😀", "𝒳", "", "\u{feff}", "\u{2028}", "\u{2029}", "\u{85}", "\u{b}\u{c}", "e\u{301}"];
 const TERMS: [&str; 3] = ["\n", "\r", "\r\n"];
 
 fn show(text: &str) -> String {
